@@ -31,11 +31,18 @@ EXC_TYPES = {
     "IndexError": IndexError,
     "KeyboardInterrupt": KeyboardInterrupt,
     "SimCrash": SimCrash,
+    # message shapes a handler might trip over
+    "EmptyMessage": NotImplementedError,
+    "Multiline": RuntimeError,
 }
 
 
 def make_exc(name: str, tag: str):
     cls = EXC_TYPES[name]
+    if name == "EmptyMessage":
+        return cls()  # str(e) == ""
+    if name == "Multiline":
+        return cls(f"injected failure [{tag}]\nsecond line with details\n\nfourth line")
     if cls is OSError:
         return OSError(28, f"No space left on device [{tag}]")
     return cls(f"injected {name} [{tag}]")
@@ -43,6 +50,27 @@ def make_exc(name: str, tag: str):
 
 class StdoutSentinel(io.StringIO):
     """Stand-in for the caller's sys.stdout; identity is compared afterwards."""
+
+
+class WriteOnlyStdout:
+    """A caller's stdout replacement that only knows ``write`` (a log adapter)."""
+
+    def __init__(self):
+        self.parts = []
+
+    def write(self, data):
+        self.parts.append(data)
+        return len(data)
+
+    def getvalue(self):
+        return "".join(self.parts)
+
+
+class FlushRaisesStdout(WriteOnlyStdout):
+    """A stream whose ``flush`` fails (closed pipe)."""
+
+    def flush(self):
+        raise BrokenPipeError(32, "Broken pipe (injected)")
 
 
 GLOTARAN_DIR = os.path.join(core.REPO, "glotaran") + os.sep
